@@ -190,18 +190,24 @@ def chunksExact {α : Type} (block : Nat) : Nat → List α → List (List α)
   | 0, _ => []
   | fuel + 1, l => if block = 0 ∨ l.length < block then [] else l.take block :: chunksExact block fuel (l.drop block)
 
-/-- `execute_block_binary_extended` at plaintext level: polynomial 0 of the final accumulators.
-`lwe2n = b :: a` is the mod-switched ciphertext, `sk` the key bits. -/
-def blindExt (n ext b size block : Nat) (data : List (List Vec)) (lwe2n : List Int) (sk : List Int) : List Vec :=
+/-- one block of the extended loop: `acc_add_dft` collects the terms of the block's coefficients (all computed
+from the accumulators of the block start), then `acc[j] ← normalize(acc[j] + acc_add[j])` -/
+def extBlock (n ext b size : Nat) (acc : List (List Vec)) (blk : List (Int × Int)) : List (List Vec) :=
+  let add := blk.foldl (fun add (as : Int × Int) => extTerm n ext acc as.1 as.2 add) (List.replicate ext (zeroP n size))
+  List.zipWith (fun x y => (addP x y).map (normVec b)) acc add
+
+/-- all accumulators of `execute_block_binary_extended` after the last block -/
+def blindExtAcc (n ext b size block : Nat) (data : List (List Vec)) (lwe2n : List Int) (sk : List Int) : List (List Vec) :=
   match lwe2n with
   | [] => []
   | b0 :: a =>
-    let acc0 := extInit ext (posMod b0 (2 * n * ext)) data
     let pairs := List.zip a sk
-    let acc := (chunksExact block pairs.length pairs).foldl (fun acc blk =>
-      let add := blk.foldl (fun add (as : Int × Int) => extTerm n ext acc as.1 as.2 add) (List.replicate ext (zeroP n size))
-      List.zipWith (fun x y => (addP x y).map (normVec b)) acc add) acc0
-    acc.getD 0 []
+    (chunksExact block pairs.length pairs).foldl (extBlock n ext b size) (extInit ext (posMod b0 (2 * n * ext)) data)
+
+/-- `execute_block_binary_extended` at plaintext level: polynomial 0 of the final accumulators
+(`res ← acc[0]`).  `lwe2n = b :: a` is the mod-switched ciphertext, `sk` the key bits. -/
+def blindExt (n ext b size block : Nat) (data : List (List Vec)) (lwe2n : List Int) (sk : List Int) : List Vec :=
+  (blindExtAcc n ext b size block data lwe2n sk).getD 0 []
 
 /-- `execute_standard` / `execute_block_binary` (`ext = 1`) at plaintext level:
 `acc ← acc + Σ_{block} s_i · (X^{a_i} − 1) · acc`, normalised. -/
